@@ -146,6 +146,9 @@ pub fn gen_c05(rng: &mut Rng, n: usize, out: &mut Vec<String>) {
         let t1 = gen_prog::layout(rng, &damaged, &lo).0;
         out.push(format!("PROPCONTAIN {} {} {} {}", hex_str(&t0), hex_str(&t1), k, ndecl));
         out.push(format!("NEW {}", hex_str(&t1)));
+        if made % 4 == 0 {
+            out.push(format!("PUB {}", hex_str(&t1)));
+        }
         made += 1;
     }
 }
@@ -198,10 +201,30 @@ fn contain(t0: &str, t1: &str, k: usize, n: usize) -> String {
         while matches!(b.tokens[i].token_type, spl_frontend::tokens::TokenType::Comment(_)) { i += 1; }
         b.tokens[i].range.start
     };
-    for e in b.errors() {
+    let errs = b.errors();
+    for e in &errs {
         if matches!(e.1, ErrorMessage::LexErrorMessage(_) | ErrorMessage::ParseErrorMessage(_)) {
             if e.0.start < seg_lo || e.0.end > seg_hi {
                 return format!("bad:syntax-diagnostic-{}-{}-outside-damaged-declaration-{}-{}", e.0.start, e.0.end, seg_lo, seg_hi);
+            }
+        }
+    }
+    // ... and so do the ranges the broker PUBLISHES for them (positions by the independent LSP position function)
+    match crate::ops_net::published_ranges(t1) {
+        Err(e) => return format!("bad:publishing-failed-{}", e.replace(' ', "-")),
+        Ok(pubs) => {
+            if pubs.len() != errs.len() {
+                return format!("bad:{}-diagnostics-published-for-{}-errors", pubs.len(), errs.len());
+            }
+            let lo = crate::ops_feat::lsp_pos(t1, seg_lo);
+            let hi = crate::ops_feat::lsp_pos(t1, seg_hi);
+            let (lo, hi) = ((lo.0 as u64, lo.1 as u64), (hi.0 as u64, hi.1 as u64));
+            for (e, p) in errs.iter().zip(pubs.iter()) {
+                if matches!(e.1, ErrorMessage::LexErrorMessage(_) | ErrorMessage::ParseErrorMessage(_)) {
+                    if (p.0, p.1) < lo || (p.2, p.3) > hi {
+                        return format!("bad:published-syntax-diagnostic-{}:{}-{}:{}-outside-damaged-declaration-{}:{}-{}:{}", p.0, p.1, p.2, p.3, lo.0, lo.1, hi.0, hi.1);
+                    }
+                }
             }
         }
     }
